@@ -128,6 +128,10 @@ class C10(Prop):
             out.append('parse sdes %s' % hx(b))
         for b in sdes_bodies_small(g, n):
             out.append('parse sdes %s' % hx(b))
+        # one chunk of more than 64 KiB (256 items of 255 bytes): chunk-level alignment arithmetic
+        big = h.images(['sdes 0 1 7 256 %s' % ' '.join('1 - %s' % ('61' * 255) for _ in range(256))])[0]
+        if big is not None:
+            out.append('parse sdes %s' % hx(big))
         return out
     def relevant(self, line, impl, model):
         return kind_of(line) == 'parse' and entry_of(line) == 'sdes' and model.get('spec.framed') == 'true'
@@ -357,7 +361,8 @@ class C12(Prop):
         return kind_of(line) == 'parse' and entry_of(line) in self.ALL + ['packet']
     def proj(self, line, obs):
         # dispatch and conversion structure only: which variant / which error, not the field values
-        conv = tuple(tuple(res_shape(ser(x)) for x in (S.parse(obs.get(k, '()')) or [])) for k in ('conv', 'convv'))
+        conv = tuple(tuple(res_shape(ser(x)) for x in (S.parse(obs.get(k, '()')) or []))
+                     for k in ('conv', 'convv', 'pconv', 'pconvv'))
         return (res_shape(obs.get('r')), conv)
     def nontrivial(self, line, impl):
         return entry_of(line) == 'packet' and len(input_of(line)) >= 4
@@ -406,7 +411,7 @@ class C12(Prop):
         for line, a, m in recs:
             if entry_of(line) == 'unknown' and ok_str(a.get('r')):
                 b = input_of(line)
-                for key in ('conv', 'convv'):
+                for key in ('conv', 'convv', 'pconv', 'pconvv'):
                     conv = [ser(x) for x in (S.parse(a.get(key, '()')) or [])]
                     for i, t in enumerate(TYPED):
                         tr = typed.get((t, b), {}).get('r')
@@ -447,11 +452,27 @@ class C13(Prop):
                 pl = 'parse %s %s' % (e, hx(pad_image(img, p)))
                 self.pairs[pl] = (base, p)
                 out.append(pl)
+            # the same packet, padded, through the generic parser and as a one-packet compound
+            if g.chance(0.35):
+                p = g.pick(pads)
+                for ent in ('packet', 'compound'):
+                    b2, p2 = 'parse %s %s' % (ent, hx(img)), 'parse %s %s' % (ent, hx(pad_image(img, p)))
+                    self.pairs[p2] = (b2, p)
+                    out += [b2, p2]
+        # packets above 64 KiB (16-bit arithmetic on the position of the padding count)
+        for total in ([65540] if tier == 'quick' else [65536, 65540, 131072, 262140 - 252]):
+            img = bytes([0x80 | g.r.randrange(32), 204]) + (total // 4 - 1).to_bytes(2, 'big') + g.rawbytes(8) + bytes(total - 12)
+            base = 'parse app %s' % hx(img)
+            out.append(base)
+            for p in (4, 252):
+                pl = 'parse app %s' % hx(pad_image(img, p))
+                self.pairs[pl] = (base, p)
+                out.append(pl)
         return out
     def relevant(self, line, impl, model):
-        return kind_of(line) == 'parse' and entry_of(line) in ('sr', 'rr', 'app', 'bye', 'sdes', 'tfb', 'pfb')
+        return kind_of(line) == 'parse' and entry_of(line) in ('sr', 'rr', 'app', 'bye', 'sdes', 'tfb', 'pfb', 'packet', 'compound')
     def proj(self, line, obs):
-        return (obs.get('r'),)
+        return (obs.get('r'), obs.get('items') if entry_of(line) == 'compound' else None)
     def nontrivial(self, line, impl):
         return line in self.pairs
     def group_oracle(self, recs):
@@ -461,6 +482,17 @@ class C13(Prop):
             if pl not in by or base not in by:
                 continue
             rb, rp = by[base].get('r', ''), by[pl].get('r', '')
+            if entry_of(pl) == 'compound':
+                # a one-packet compound: r says accepted, the packet is the first item
+                if not ok_str(rb):
+                    continue
+                if not ok_str(rp):
+                    out.append((pl, 'the unpadded packet is accepted as a compound but with %d bytes of padding it is rejected: %s' % (p, rp[:120])))
+                    continue
+                ib, ip = S.parse(by[base].get('items', '()')) or [], S.parse(by[pl].get('items', '()')) or []
+                if not ib or not ip or not isinstance(ib[0], list) or not isinstance(ip[0], list):
+                    continue
+                rb, rp = ser(ib[0][1]) if len(ib[0]) > 1 else '', ser(ip[0][1]) if len(ip[0]) > 1 else ''
             if not ok_str(rb):
                 continue
             if not ok_str(rp):
@@ -468,6 +500,8 @@ class C13(Prop):
                 continue
             vb, db = view_kvs_str(rb)
             vp, dp = view_kvs_str(rp)
+            if vb == 'Unknown':
+                continue
             if dp.get('padding') != '(ok (some #%x))' % p:
                 out.append((pl, 'padding accessor reports %s for %d bytes of padding' % (dp.get('padding'), p)))
             for k in db:
@@ -548,6 +582,19 @@ class C14(Prop):
             for m in split_members(line):
                 out.append('build e0:aa,e0:55 ' + m)
         g.in_compound = False
+        # a member of the largest size (262144 bytes, length field 0xffff) between two small ones, and a padded
+        # transport / payload feedback member in non-last position (each feedback kind has its own get_padding)
+        big = 'app 0 1 0 6e616d65 %s' % ('00' * (262144 - 12))
+        fixed = ['compound 3 rr 0 1 0 %s bye 0 0 -' % big,
+                 'compound 2 fb t 4 1 2 nack 1 5 bye 0 0 -', 'compound 2 fb p 4 1 2 pli bye 0 0 -',
+                 'compound 2 fb p 8 1 2 fir 1 9 9 rr 0 1 0', 'compound 2 fb p 4 1 2 rpsi 96 0102 0 rr 0 1 0',
+                 'compound 2 compound 2 rr 0 1 0 fb t 4 1 2 nack 1 5 bye 0 0 -',
+                 'compound 2 rr 0 1 0 fb t 4 1 2 nack 1 5', 'compound 2 rr 0 1 0 fb p 252 1 2 pli']
+        for c in fixed:
+            line = 'build e0:aa,e0:55 ' + c
+            out.append(line)
+            for m in split_members(line):
+                out.append('build e0:aa,e0:55 ' + m)
         return out
     def relevant(self, line, impl, model):
         return kind_of(line) == 'build'
@@ -662,7 +709,7 @@ class C15(Prop):
                     blp = g.pick([0, 1, 0x8000, 0xffff, 0x8001, 1 << g.r.randrange(16), g.r.randrange(65536)])
                     fci[i:i + 4] = pid.to_bytes(2, 'big') + blp.to_bytes(2, 'big')
             elif style == 'rpsi' and ln >= 2:
-                fci[0] = g.pick([0, 1, 7, 8, 9, 15, 16, 8 * max(0, ln - 2), 8 * max(0, ln - 2) + 8, 8 * max(0, ln - 3), 255])
+                fci[0] = min(255, g.pick([0, 1, 7, 8, 9, 15, 16, 8 * max(0, ln - 2), 8 * max(0, ln - 2) + 8, 8 * max(0, ln - 3), 255]))
             elif style == 'empty':
                 fci = bytearray()
             pad = g.pick([0, 0, 0, 4, 8, 12])
@@ -741,6 +788,11 @@ class C16(Prop):
                 'build - compound 2 compound 1 rr 4 1 0 bye 0 0 -', 'build - compound 2 unk 4 199 0 - bye 0 0 -',
                 'build - compound 2 custom 199 4 0 4 - bye 0 0 -', 'build - compound 2 sdes 4 0 bye 0 0 -',
                 'build - compound 2 app 4 1 0 - - bye 0 0 -', 'build - compound 2 sr 4 1 0 0 0 0 0 bye 0 0 -']
+        # counts that no longer fit a byte (a limit compared after a narrowing cast)
+        for k in (255, 256, 257, 287, 288, 512):
+            out.append('build - bye 0 %d %s -' % (k, ' '.join('7' for _ in range(k))))
+            out.append('build - rr 0 1 %d %s' % (k, ' '.join(rb(1) for _ in range(k))))
+        out.append('build - sdes 0 256 %s' % ' '.join('%d 0' % i for i in range(256)))
         if tier == 'thorough':
             fir = lambda k: 'build - fb p 0 1 2 fir %d %s' % (k, ' '.join('%d 1' % i for i in range(k)))
             out += [fir(32765), fir(32766), fir(32767)]
@@ -1050,7 +1102,7 @@ class C20(Prop):
     def proj(self, line, obs):
         ws = writes_of(obs.get('writes'))
         first = ws[0] if ws else None
-        return (obs.get('size'), first[0] if first else None,
+        return (obs.get('size'), obs.get('get_padding'), first[0] if first else None,
                 canon_fir_bytes('build x ' + self._member_hint(line), first[1]) if first and first[1] is not None else None)
     def _member_hint(self, line):
         c = self.canon.get(line)
@@ -1071,6 +1123,10 @@ class C20(Prop):
                 continue
             if hs != cs:
                 out.append((hl, 'this call history gives size %s, the canonical build of the same configuration gives %s' % (hs, cs)))
+                continue
+            if a.get('get_padding') != c.get('get_padding'):
+                out.append((hl, 'get_padding() is %s through this call history / wrapper, %s for the canonical build'
+                            % (a.get('get_padding'), c.get('get_padding'))))
                 continue
             if not ok_str(cs):
                 continue
